@@ -27,5 +27,14 @@ CHECK = {
             "shards": {"quick": 16, "thorough": 16},
             "budget_s": {"quick": 45, "thorough": 500},
         },
+        {
+            # the runner's call sites of the framing code (limits, timeouts, truncation of
+            # server responses) through the real runTestCasesForServer under the GATE scheduler
+            "name": "c09-callsites", "pkg": "internal/app/connectconformance", "rewrite": ["internal/app/connectconformance"],
+            "harness": ["connectconformance/c11_test.go", "connectconformance/fakeproc_test.go", "connectconformance/gateutil_test.go"],
+            "test": "^TestVerifC09CallSites$", "gomaxprocs": 1,
+            "shards": {"quick": 8, "thorough": 16},
+            "budget_s": {"quick": 45, "thorough": 300},
+        },
     ],
 }
